@@ -21,13 +21,14 @@ RULE = ("Histories over 19 operations {rewrite same size, rewrite other size, to
         "exhaustive histories are distinct by construction.")
 RULE += ' Also: replacement by a file of another size whose mtime was carried over (only ctime moves), If-None-Match lists with empty members and with a comma inside a tag, conditional requests sent as GET or HEAD, apps with every cacheability / max_age setting.'
 ASSUMPTIONS = [
+    "when the file clock steps backwards, a request that carries only If-Modified-Since is not judged (a date comparison cannot see a change with an earlier time); ETag-carrying requests are",
     "file timestamps come from a virtual clock (os.stat is wrapped for sandbox paths only); content is really written to disk",
     "same-size rewrites that move the timestamps by less than a second are unconstrained (the statement exempts them)",
     "Last-Modified-only revalidation of an unchanged file may be 200 or 304 (the 'always revalidates' clause is about the ETag)",
 ]
 
 OPS = ["same", "other", "touch", "adv0.4", "adv1", "adv2.5", "plain", "etag", "lm", "both", "list-first", "list-mid", "list-last", "weak",
-       "weaklist", "star", "etag0", "lm0", "both0", "other-keepm", "list-empty", "list-comma", "etag-range", "lm-range", "list-long", "truncate0"]
+       "weaklist", "star", "etag0", "lm0", "both0", "other-keepm", "list-empty", "list-comma", "etag-range", "lm-range", "list-long", "truncate0", "back2.5"]
 MODS = ("same", "other", "touch", "other-keepm", "truncate0")
 
 
@@ -115,6 +116,8 @@ def run_history(ctx, vfs, iface, app, url_path, file_path, seq, start_frac, zone
             modified_since_resp = True
         elif op.startswith("adv"):
             clock += float(op[3:])
+        elif op.startswith("back"):
+            clock -= float(op[4:])  # the file clock steps backwards (a restored backup, a corrected clock): later writes carry earlier times
         else:
             j = None
             if op not in ("plain", "star"):
@@ -186,7 +189,10 @@ def run_history(ctx, vfs, iface, app, url_path, file_path, seq, start_frac, zone
                 if not unchanged:
                     nontriv = True
                 ctx.mon("stale-304-check")
-                if must_full and st != 200:
+                if must_full and st != 200 and base == "lm" and (cur["c"] < j["c"] or cur["m"] < j["m"]):
+                    # a date comparison cannot see a change that carries an EARLIER time than the copy the client holds
+                    ctx.count("if-modified-since-only-after-backward-clock(not judged)")
+                elif must_full and st != 200:
                     why = "size-change" if j["size"] != cur["size"] else "timestamp-change"
                     sec = "same-second" if (int(j["m"]) == int(cur["m"]) and int(j["c"]) == int(cur["c"])) else "different-second"
                     vform = {"lm": "last-modified-only", "both": "etag+last-modified"}.get(base, "etag-form:" + base)
@@ -206,7 +212,7 @@ def run_history(ctx, vfs, iface, app, url_path, file_path, seq, start_frac, zone
     return nontriv
 
 
-REGRESSION = [("list-long",), ("etag-range",), ("lm-range",), ("other", "etag-range"), ("adv1", "other-keepm", "lm"), ("adv2.5", "other-keepm", "both"), ("list-empty",), ("list-comma",), ("other", "both"), ("weaklist",), ("list-last",), ("other", "lm"), ("adv1", "touch", "etag"), ("same", "adv2.5", "etag0"),
+REGRESSION = [("adv1", "same", "back2.5", "same", "etag0"), ("back2.5", "same", "etag"), ("list-long",), ("etag-range",), ("lm-range",), ("other", "etag-range"), ("adv1", "other-keepm", "lm"), ("adv2.5", "other-keepm", "both"), ("list-empty",), ("list-comma",), ("other", "both"), ("weaklist",), ("list-last",), ("other", "lm"), ("adv1", "touch", "etag"), ("same", "adv2.5", "etag0"),
               ("other", "adv1", "other", "lm0"), ("adv0.4", "same", "both"), ("touch", "weak"), ("adv1", "same", "lm")]
 
 
@@ -238,7 +244,7 @@ def run(ctx):
         idx = 0
         for n in range(1, maxlen + 1):
             for seq in itertools.product(OPS, repeat=n):
-                if not any(o in MODS or o.startswith("adv") for o in seq) and n > 1 and len(set(seq)) == 1:
+                if not any(o in MODS or o.startswith(("adv", "back")) for o in seq) and n > 1 and len(set(seq)) == 1:
                     pass
                 idx += 1
                 if not ctx.mine(idx):
